@@ -50,7 +50,7 @@ def gen(tier, seed, chunk, nchunks_):
         if rng.random() < 0.8:
             d = decls[(chunk * per + k) % len(decls)]
         else:
-            d = optgen.rand_decl(rng, env_rate=0.3)
+            d = optgen.rand_decl(rng, env_rate=0.3, groups=True)
         pool = optgen.flat_pool(optgen.token_pool(d))
         benign = optgen.benign_tokens(d)
         envnames = sorted({o["env"] for o in d["opts"] if o.get("env")})
